@@ -181,6 +181,16 @@ func rangeCase(b *harness.B, leaves []H, tree *mTree, seed uint64, start, end ui
 	if start > 0 {
 		tamper(b, name, "range-shifted-down", wit, "start and end are both one lower than the positions of the given roots", func() bool { return verify(proof, rr, start-1, end-1, root) })
 	}
+	if all {
+		// small trees: the same roots claimed at every other position of the same length
+		ln := end - start
+		for s := uint64(0); s+ln <= n; s++ {
+			if s == start || s+1 == start || s == start+1 {
+				continue // start±1 are the two shifted cases above
+			}
+			tamper(b, name, "range-moved", wit, fmt.Sprintf("the roots are claimed at [%d,%d)", s, s+ln), func() bool { return verify(proof, rr, s, s+ln, root) })
+		}
+	}
 	if len(rr) >= 2 && !heavy {
 		tamper(b, name, "start-altered", wit, "start is one higher (the first len-1 roots are claimed to sit at [start+1,end))", func() bool { return verify(proof, rr[:len(rr)-1], start+1, end, root) })
 		tamper(b, name, "end-altered", wit, "end is one lower (the last len-1 roots are claimed to sit at [start,end-1))", func() bool { return verify(proof, rr[1:], start, end-1, root) })
